@@ -174,8 +174,10 @@ def run_selftest(prop, mod, jobs=None):
                               'details': [{'change': r[0], 'result': r[1], 'by': r[2]} for r in sres]},
            'wall_s': round(time.time() - t0, 2)}
     if sres:
-        print('self-test %s: %d seeded changes applied in memory, %d detected, missed %s, skipped %s' % (
-            prop, len(sres), out['seeded_changes']['detected'], out['seeded_changes']['missed'], out['seeded_changes']['not_applicable_any_more']))
+        out['seeded_changes']['analysis_error'] = [r[0] for r in sres if r[1] not in ('killed', 'survived', 'skipped')]
+        print('self-test %s: %d seeded changes applied in memory, %d detected, missed %s, analysis-error %s, skipped %s' % (
+            prop, len(sres), out['seeded_changes']['detected'], out['seeded_changes']['missed'], out['seeded_changes']['analysis_error'],
+            out['seeded_changes']['not_applicable_any_more']))
     print('self-test %s: %d mutants, %d killed, %d by another rule, %d analysis-error, survived %s, skipped %s, crashed %s' % (
         prop, out['mutants'], out['killed'], out['killed_by_other_rule'], out['analysis_error'],
         out['survived'], out['skipped'], out['crashed']))
